@@ -99,8 +99,9 @@ class Ctx:
             if o.id in seen:
                 continue
             seen.add(o.id)
-            if o.id in known:
-                knowns.append((o, known[o.id]))
+            base = o.id.rsplit("@", 1)[0] if o.id.rsplit("@", 1)[-1] in extract.CONFIGS else o.id
+            if o.id in known or base in known:
+                knowns.append((o, known.get(o.id) or known[base]))
             else:
                 violations.append(o)
         evdir = os.environ.get("RFSM_EVIDENCE_DIR") or os.path.join(VERIF, "evidence")
